@@ -59,7 +59,7 @@ theorem builders_atomic (a : ArraySized) (b e : Nat) (p : List Nat → Bool) (m 
     · exact ⟨h2, h3⟩
 
 /-- **atomic**, iterators: a refused `iter_add` leaves the array and the cursor unchanged (A5); a
-refused `zip_iter_add` leaves both contents and the cursor unchanged (A8) -/
+refused `zip_iter_add` leaves both contents and the cursor unchanged (A8, A11) -/
 theorem iter_atomic (it : Iter) (a : ArraySized) (c : Spec.SSeq.Cursor Elem) (e : Buf Nat) (m : Mem) (h : a.Inv)
     (he : e.length = a.dataLen) (hrel : IterRel it a c) (hst : (a.iterAdd it e m).1 ≠ .ok) :
     (a.iterAdd it e m).2.1 = it ∧ (a.iterAdd it e m).2.2.1 = a ∧ MemSame a.triple m (a.iterAdd it e m).2.2.2 := by
@@ -76,6 +76,22 @@ theorem zip_atomic (it : Iter) (a1 a2 : ArraySized) (c : Spec.SSeq.ZipCursor Ele
   rcases zipAdd_spec it a1 a2 c e1 e2 m i1 i2 he1 he2 hrel with ⟨h1, _⟩ | ⟨h1, h2, h3, _, _, h6, h7, _⟩
   · exact absurd h1 hst
   · exact ⟨h1, h2, h3, h7, h6⟩
+
+/-- **atomic**, `zip_iter_add` with the same array on both sides (A11): a refusal — in the growth
+pre-check or in the growth the second `add_at` needs — is reported (`CC_ERR_ALLOC`, resp.
+`CC_ERR_MAX_CAPACITY` at the size limit), the content is exactly what it was (the first element has
+been taken out again), the cursor has not moved and the ledger is balanced.  Atomicity is on the
+content: the buffer may already have been re-allocated, so the capacity may have grown. -/
+theorem zip_same_array_atomic (it : Iter) (a : ArraySized) (e1 e2 : Buf Nat) (m : Mem) (h : a.Inv)
+    (he1 : e1.length = a.dataLen) (he2 : e2.length = a.dataLen) (hi : it.index ≤ a.size)
+    (hst : (zipAddSame it a e1 e2 m).1 ≠ .ok) :
+    ((zipAddSame it a e1 e2 m).1 = .errAlloc ∨ (zipAddSame it a e1 e2 m).1 = .errMaxCapacity) ∧
+    (zipAddSame it a e1 e2 m).2.2.1.abs = a.abs ∧ (zipAddSame it a e1 e2 m).2.1 = it ∧
+    (zipAddSame it a e1 e2 m).2.2.1.Inv ∧ MemSame a.triple m (zipAddSame it a e1 e2 m).2.2.2 ∧
+    a.capacity ≤ (zipAddSame it a e1 e2 m).2.2.1.capacity := by
+  rcases zipAddSame_spec it a e1 e2 m h he1 he2 hi with ⟨h1, _⟩ | hh
+  · exact absurd h1 hst
+  · exact hh
 
 /-- **continue**: `ops₁ ++ [refused op] ++ ops₂` yields the outputs of `ops₁`, the error of the
 refused call, and then exactly the outputs and the final state of `ops₂` run directly after `ops₁`
